@@ -49,12 +49,13 @@ def parse(r):
 def run(ctx):
     thorough = ctx.tier == 'thorough'
     from concurrent.futures import ThreadPoolExecutor
-    pool = ThreadPoolExecutor(max_workers=4)
+    ncpu = vlib.NCPU
+    pool = ThreadPoolExecutor(max_workers=max(1, min(5, ncpu // 3)))
     k2 = 40 if not thorough else 150
     # 1. the lemma Selected(e,S) = S ∩ Sat(e) for every S: all leaves (quick), all depth-1 expressions would be 2*10^7 states,
     #    so the thorough tier adds the seeded depth-2 sample restricted by K=6 (72 expressions x 4096 sets)
-    f_lemma = pool.submit(ctx.tlc, SPEC, cfg(0, ctx.seed, 1, True, 'Lemma Partition'), timeout=1500, tag='lemma0', workers=4, heap='4g')
-    f_lemma2 = pool.submit(ctx.tlc, SPEC, cfg(2, ctx.seed, 4 if not thorough else 8, True, 'Lemma'), timeout=1500, tag='lemma2', workers=4, heap='4g')
+    f_lemma = pool.submit(ctx.tlc, SPEC, cfg(0, ctx.seed, 1, True, 'Lemma Partition'), timeout=1500, tag='lemma0', workers=min(4, ncpu), heap='4g')
+    f_lemma2 = pool.submit(ctx.tlc, SPEC, cfg(2, ctx.seed, 4 if not thorough else 8, True, 'Lemma'), timeout=1500, tag='lemma2', workers=min(4, ncpu), heap='4g')
     # 2. expression pool with Sat(e)
     f_d = [pool.submit(ctx.tlc, SPEC, cfg(d, ctx.seed, k2, False, 'Lemma Partition Emit'), timeout=1500, tag=f'emit{d}', workers=2, heap='3g')
            for d in (0, 1, 2)]
@@ -108,7 +109,7 @@ def run(ctx):
                       'layout': rng.choice(['log', 'log', 'compact', 'two']), 'cacheSize': rng.choice([100, 0]),
                       'parts': rng.choice([1, 2]), 'regtab': regtab})
     ctx.exhaustive = bool(thorough)
-    res, lines = ctx.replay(binary, cases, timeout=1700, procs=16)
+    res, lines = ctx.replay(binary, cases, timeout=1700, procs=min(16, ncpu), case_timeout='900s')
     ctx.absorb(res, lines, sample=0)
     ctx.samples = [{'series': c['series'], 'first_expressions': [exprs[i] for i in c['sel'][:3]], 'layout': c['layout'],
                     'variant': c['variant']} for c in cases[:3]]
